@@ -91,6 +91,19 @@ static void c01_valid_tour(Buf *b) {
             if (r.rc == 0) { uint16_t bl = g16(r.p + 10); uint8_t blob[200], sec[200]; uint16_t sl = 0; if (bl <= 200) { memcpy(blob, r.p + 12, bl); sl = g16(r.p + 12 + bl); if (sl <= 200) memcpy(sec, r.p + 14 + bl, sl); }
                 if (bl <= 200 && sl <= 200) { cmd_begin(b, ST_SESSIONS, 0x147); b_u32(b, sk.h); b_u32(b, st.h); tour_auth2(b); b_2b(b, blob, bl); b_2b(b, sec, sl); tour_run(b, "ActivateCredential"); } } }
     }
+    /* a PUBLIC-ONLY object (LoadExternal without a sensitive area) in every handle position that asks for an authorization: there is
+       no authValue to check, each of these must be answered with an ordinary error */
+    if (sk.h && sk.pl) { cmd_begin(b, ST_NO_SESSIONS, CC_LoadExternal); b_u16(b, 0); b_2b(b, sk.pub, sk.pl); b_u32(b, RH_NULL); Rsp r = tour_run(b, "LoadExternal-public-only");
+        if (r.rc == 0) { uint32_t po = g32(r.p + 10);
+            cmd_begin(b, ST_SESSIONS, 0x148); b_u32(b, po); b_u32(b, sk.h); tour_auth2(b); b_2b(b, q, 2); b_u16(b, ALG_NULL); tour_run(b, "Certify-public-only-object");
+            cmd_begin(b, ST_SESSIONS, 0x148); b_u32(b, sk.h); b_u32(b, po); tour_auth2(b); b_2b(b, q, 2); b_u16(b, ALG_NULL); tour_run(b, "Certify-public-only-signer");
+            if (st.h) { cmd_begin(b, ST_SESSIONS, CC_ObjectChangeAuth); b_u32(b, po); b_u32(b, st.h); auth_pw(b, "", 0); b_2b(b, "new", 3); tour_run(b, "ObjectChangeAuth-public-only");
+                cmd_begin(b, ST_SESSIONS, 0x147); b_u32(b, po); b_u32(b, st.h); tour_auth2(b); b_2b(b, "0123456789abcdef0123456789abcdef01", 34); b_2b(b, "0123456789abcdef", 16); tour_run(b, "ActivateCredential-public-only"); }
+            { uint8_t dg[32] = {0}; cmd_begin(b, ST_SESSIONS, CC_Sign); b_u32(b, po); auth_pw(b, "", 0); b_2b(b, dg, 32); b_u16(b, ALG_NULL); b_u16(b, 0x8024); b_u32(b, RH_NULL); b_u16(b, 0); tour_run(b, "Sign-public-only"); }
+            cmd_begin(b, ST_SESSIONS, 0x14A); b_u32(b, sk.h); b_u32(b, po); auth_pw(b, "", 0); b_2b(b, q, 2); b_2b(b, sk.chash, 32); b_u16(b, ALG_NULL); b_bytes(b, sk.ticket, sk.tl); tour_run(b, "CertifyCreation-public-only-object");
+            cmd_begin(b, ST_SESSIONS, CC_PolicySecret); b_u32(b, po); b_u32(b, RH_NULL); auth_pw(b, "", 0); b_u16(b, 0); b_u16(b, 0); b_u16(b, 0); b_u32(b, 0); tour_run(b, "PolicySecret-public-only");
+            cmd_begin(b, ST_SESSIONS, CC_EvictControl); b_u32(b, RH_OWNER); b_u32(b, po); auth_pw(b, "", 0); b_u32(b, 0x81000077u); tour_run(b, "EvictControl-public-only");
+            tour_flush(b, po); } }
     /* the old EncryptDecrypt with its own parameter order */
     { b_reset(&t); tmpl_symcipher(&t, NULL, 0); TourKey ck; tour_primary(b, &t, &ck, "CreatePrimary-aes");
       if (ck.h) { uint8_t iv[16] = {0}; cmd_begin(b, ST_SESSIONS, CC_EncryptDecrypt); b_u32(b, ck.h); auth_pw(b, "", 0); b_u8(b, 0); b_u16(b, ALG_CFB); b_2b(b, iv, 16); b_2b(b, "0123456789abcdef", 16); tour_run(b, "EncryptDecrypt"); tour_flush(b, ck.h); } }
